@@ -70,7 +70,9 @@ def cases(draw, tier):
                        "growth_factor": draw(K.growth_strategy)},
             "X": None, "scale2": draw(st.floats(1.0, 3.0)),
             # the detector may have been fitted on other data (other length): detections are relative to threshold_
-            "n_train": draw(st.sampled_from([None, None, "shorter", "longer", "same_buffer"])),
+            "n_train": draw(st.sampled_from([None, None, "shorter", "longer", "same_buffer", "fewer_columns", "more_columns"])),
+            # a channel stored twice (two identical columns): the score still sums over all columns
+            "dup_col": draw(st.integers(0, 5)) == 0,
             # the detector / its scorer may have a past: an earlier predict on the same buffer, an earlier fit on wider data
             "history": draw(st.sampled_from(K.HISTORIES))}
     if bulk == "table":
@@ -91,6 +93,9 @@ def cases(draw, tier):
             X = [[v + 9.19e9 for v in row] for row in X]
         elif unit != 1.0:
             X = [[v * unit for v in row] for row in X]
+    if case.pop("dup_col") and bulk == "matrix" and p >= 2 and "Cov" not in str(sc):
+        X = [[row[0]] + list(row[:-1]) for row in X]  # (for the ordinary floats only: the narrow types keep their own values)
+        case["duplicated_column"] = True
     case["X"] = X
     return case
 
@@ -100,6 +105,16 @@ def training_data(X, mode, n_min, scorer_spec=None):
     Table scorers are defined for positions 0..n only, so they are never fitted on longer data."""
     if mode == "longer" and isinstance(scorer_spec, dict) and scorer_spec.get("cls", "").startswith("Table"):
         mode = None
+    if mode in ("fewer_columns", "more_columns"):
+        # the detector was fitted on a reference recording with another number of channels (detections are relative to the
+        # fitted threshold_); not for user scorers tied to the generated data, nor where the minimum size grows with the columns
+        cls = (scorer_spec or {}).get("cls", "")
+        inner = ((scorer_spec or {}).get("cost") or {}).get("cls", "")
+        if cls.startswith(("Table", "Function")) or "Cov" in cls + inner:
+            return X
+        if mode == "fewer_columns":
+            return X[:, :1].copy() if X.shape[1] > 1 else X
+        return np.hstack([X, X[::-1] * 0.5])
     if mode == "same_buffer":
         return X[::-1] * 0.75 + 0.5  # other contents of the same shape: the caller refills one buffer
     if mode == "shorter" and len(X) > n_min:
@@ -212,6 +227,10 @@ def check(case):
             classes.append("threshold_removed_some")
     if len(Xtrain) != n:
         classes.append("fitted_on_other_length")
+    if Xtrain.shape[1] != p:
+        classes.append("fitted_on_other_number_of_columns")
+    if case.get("duplicated_column"):
+        classes.append("duplicated_column")
     if case.get("n_train") == "same_buffer":
         classes.append("buffer_refilled_after_fit")
     if history:
